@@ -7,7 +7,7 @@ from pyvc import library as L
 from pyvc.values import PyExc, Unsupported, to_real, to_int
 from contracts.c01 import build_model, TapeFiles, _same, _get, SECTION_CONTENT
 
-FUNCS = ['t2data.t2data.rocks_json', 't2data.t2data.convert_to_TOUGH2', 't2data.t2data.convert_to_AUTOUGH2', 't2data.t2data.convert_AUTOUGH2_parameters_to_TOUGH2', 't2data.t2data.convert_TOUGH2_parameters_to_AUTOUGH2',
+FUNCS = ['t2data.t2data.generators_json', 't2data.t2data.rocks_json', 't2data.t2data.convert_to_TOUGH2', 't2data.t2data.convert_to_AUTOUGH2', 't2data.t2data.convert_AUTOUGH2_parameters_to_TOUGH2', 't2data.t2data.convert_TOUGH2_parameters_to_AUTOUGH2',
          't2data.t2data.convert_AUTOUGH2_generators_to_TOUGH2', 't2data.t2data.convert_short_to_history', 't2data.t2data.convert_history_to_short', 't2data.t2data.write', 't2data.t2data.read']
 
 
@@ -182,7 +182,53 @@ def p_rocks_json(e, arg):
     e.explore(prog, 'rocks_json')
 
 
-PROGRAMS = [('p_rocks_json', (a, c)) for a in (0, 1, 2) for c in ('xyz', 'rz')] + [('p_convert_roundtrip', ('AUTOUGH2', False)), ('p_convert_roundtrip', ('AUTOUGH2', True)), ('p_convert_roundtrip', ('TOUGH2', False))]
+def p_generators_json(e, arg):
+    """generators_json on a real grid: one source per (non-group) generator, in order, each with the cell index of its block
+    (None for an atmosphere block), constant rates and tables carried over - including a table generator whose GX field
+    was blank in the file (gx None, as t2data.read leaves it)."""
+    atm, eos = arg
+    tag = '[atm%d,%s]' % (atm, eos)
+    from contracts.c04 import build_rect, _valid
+    def prog(e):
+        md, mg = e.load_module('t2data').globals, e.load_module('t2grids').globals
+        geo, S = build_rect(e, 2, 1, 2, atm, 0, 0)
+        dat = e.call(md['t2data'], [])
+        dat.fields['grid'] = e.call(e.getattr(e.call(mg['t2grid'], []), 'fromgeo'), [geo])
+        n = geo.fields['block_name_list']
+        natm = {0: 1, 1: 2, 2: 0}[atm]
+        gens = [dict(name='gen 1', block=n[natm], type='MASS', gx=e.sym_real('gx1'), ex=e.sym_real('ex1')),
+                dict(name='gen 2', block=n[-1], type='HEAT', gx=e.sym_real('gx2', 0)),
+                dict(name='gen 3', block=n[natm + 1], type='MASS', ltab=2, itab='E', gx=None, ex=None, time=[e.sym_real('t0'), e.sym_real('t1')], rate=[e.sym_real('r0'), e.sym_real('r1')],
+                     enthalpy=[e.sym_real('h0'), e.sym_real('h1')]),
+                dict(name='gen 4', block=n[-2], type='COM1', gx=e.sym_real('gx4', 0), ex=e.sym_real('ex4'))]
+        if natm:
+            gens.append(dict(name='gen 5', block=n[0], type='HEAT', gx=e.sym_real('gx5', 0)))
+        e.assume(gens[1]['gx'] > 0); e.assume(gens[3]['gx'] > 0)
+        for kw in gens:
+            e.call(e.getattr(dat, 'add_generator'), [e.call(md['t2generator'], [], kw)])
+        try:
+            js = e.call(e.getattr(dat, 'generators_json'), [geo, eos])
+        except PyExc as ex:
+            e.fail('post:generators_json_completes' + tag, 'raises %s: %s' % (ex.cls, ex.msg)); return
+        e.prove(True, 'post:generators_json_completes' + tag)
+        src = js.get('source', [])
+        e.prove(len(src) == len(gens) and [x['name'] for x in src] == [g['name'] for g in gens] and 'network' not in js, 'post:one_source_per_generator_in_order' + tag)
+        if len(src) != len(gens):
+            return
+        ok = True
+        for x, g in zip(src, gens):
+            want = geo.fields['block_name_index'][g['block']] - natm
+            ok = ok and x['cell'] == (want if want >= 0 else None)
+        e.prove(ok, 'post:every_source_has_the_cell_index_of_its_block' + tag)
+        x1, x3 = src[0], src[2]
+        e.prove(_valid(e, to_real(x1['rate']) == to_real(gens[0]['gx'])), 'post:constant_rate_carried_over' + tag)
+        e.prove(isinstance(x3.get('rate'), list) and len(x3['rate']) == 2 and all(_valid(e, z3.And(to_real(a) == to_real(t), to_real(b) == to_real(r))) for (a, b), t, r in zip(x3['rate'], gens[2]['time'], gens[2]['rate'])) and
+                isinstance(x3.get('enthalpy'), list) and all(_valid(e, z3.And(to_real(a) == to_real(t), to_real(b) == to_real(h))) for (a, b), t, h in zip(x3['enthalpy'], gens[2]['time'], gens[2]['enthalpy'])),
+                'post:rate_and_enthalpy_tables_carried_over' + tag)
+    e.explore(prog, 'generators_json')
+
+
+PROGRAMS = [('p_generators_json', (a, q)) for a, q in ((0, 'we'), (1, 'w'), (2, 'wce'))] + [('p_rocks_json', (a, c)) for a in (0, 1, 2) for c in ('xyz', 'rz')] + [('p_convert_roundtrip', ('AUTOUGH2', False)), ('p_convert_roundtrip', ('AUTOUGH2', True)), ('p_convert_roundtrip', ('TOUGH2', False))]
 
 
 def replay(obname, model, result):
@@ -200,6 +246,20 @@ def replay(obname, model, result):
                 "    where = [t['name'] for t in js['rock']['types'] for i in t['cells'] if i == idx]\n"
                 "    want = [b.rocktype.name] if 0. < b.volume < 1.e25 else []\n"
                 "    if where != want: ok, detail = False, 'block %%r index %%d in %%r, want %%r' %% (n, idx, where, want)\n") % (atm, bvol, coords)
+    if result['program'] == 'p_generators_json':
+        atm, eos = result['arg']
+        return ("from mulgrids import *\nfrom t2data import *\nfrom t2grids import *\n"
+                "g = mulgrid().rectangular([10., 25.], [15.], [4., 6.], atmos_type=%d)\nd = t2data(); d.grid = t2grid().fromgeo(g)\nn = g.block_name_list; na = g.num_atmosphere_blocks\n"
+                "gens = [dict(name='gen 1', block=n[na], type='MASS', gx=-2.5, ex=1.e5), dict(name='gen 2', block=n[-1], type='HEAT', gx=7.5),\n"
+                "        dict(name='gen 3', block=n[na + 1], type='MASS', ltab=2, itab='E', gx=None, ex=None, time=[0., 1.], rate=[1., 2.], enthalpy=[1.e5, 2.e5]), dict(name='gen 4', block=n[-2], type='COM1', gx=1.5, ex=2.e5)]\n"
+                "if na: gens.append(dict(name='gen 5', block=n[0], type='HEAT', gx=3.5))\n"
+                "for kw in gens: d.add_generator(t2generator(**kw))\n"
+                "try:\n"
+                "    js = d.generators_json(g, %r); src = js.get('source', [])\n"
+                "    ok = [x['name'] for x in src] == [k['name'] for k in gens] and all(x['cell'] == (g.block_name_index[k['block']] - na if g.block_name_index[k['block']] >= na else None) for x, k in zip(src, gens)) and src[2]['rate'] == [[0., 1.], [1., 2.]]\n"
+                "    detail = str(src)[:300]\n"
+                "except Exception as ex:\n"
+                "    ok, detail = False, 'generators_json raises %%s: %%s' %% (type(ex).__name__, ex)\n") % (atm, eos)
     if result['program'] != 'p_convert_roundtrip':
         return None
     return ("from contracts.c20_native import native_convert_roundtrip\nok, detail = native_convert_roundtrip(%r, %r, %r)\n") % (tuple(result['arg']), model or {}, obname.split('[')[0])
